@@ -812,3 +812,45 @@ func lemmaShowableKinds(k reflect.Kind) bool {
 //@ maploop Disassemble 0
 //@   props C30
 //@   opt uncovered one buffer is reused and reset per package and the body calls disassembleFunction (not under contract); each iteration writes only assemblies[path]
+
+// ---------------------------------------------------------------------------
+// C15: template text is emitted verbatim except for the documented removals.
+// Slice: the functions that decide which bytes of a Text node are dropped
+// (cutSpaces), that take the remaining bytes (emitNodes, case *ast.Text) and
+// that buffer and store them (emitText, flushText); the raw-content scanners
+// endRawIndex/skipRawContent carry their C15 clauses above.
+//
+// Data-structure invariant of ast.Text carried through them:
+//   0 <= Cut.Left, 0 <= Cut.Right, Cut.Left + Cut.Right <= len(Text).
+// ---------------------------------------------------------------------------
+
+func specCutSpace(c byte) bool { return c == ' ' || c == '\t' || c == '\r' }
+
+func specCutOK(t *ast.Text) bool {
+	return t == nil || 0 <= t.Cut.Left && 0 <= t.Cut.Right && t.Cut.Left+t.Cut.Right <= len(t.Text)
+}
+
+// cutSpaces(first, last): first is the Text that starts the line being closed
+// (it may already have been cut on the left, when it also ended an earlier
+// line), last is the Text of the current token (never cut so far); the parser
+// creates a new Text node per token, so the two are different nodes.
+//@ func cutSpaces
+//@   props C15 C04
+//@   modifies F_github_com_open2b_scriggo_ast_Text_Cut
+//@   requires first == nil || last == nil || first != last
+//@   requires specCutOK(first) && specCutOK(last)
+//@   requires first == nil || first.Cut.Right == 0
+//@   requires last == nil || last.Cut.Left == 0 && last.Cut.Right == 0
+//@   ensures[C15] specCutOK(first) && specCutOK(last)
+//@   ensures[C15] last == nil || forall(0, last.Cut.Left, func(k int) bool { return specCutSpace(last.Text[k]) || k == last.Cut.Left-1 && last.Text[k] == '\n' })
+//@   ensures[C15] first == nil || forall(len(first.Text)-first.Cut.Right, len(first.Text), func(k int) bool { return k < first.Cut.Left || specCutSpace(first.Text[k]) })
+//@   ensures[C15] first == nil || first.Cut.Left == old(first.Cut.Left)
+//@   ensures[C15] last == nil || last.Cut.Right == 0
+//@   ensures[C15] first != nil && last != nil && last.Cut.Left == 0 && len(last.Text) > 0 ==> first.Cut.Right == 0
+//@   loop 0
+//@     invariant -1 <= i && i < len(txt) && firstCut == 0
+//@     invariant forall(i+1, len(txt), func(k int) bool { return specCutSpace(txt[k]) })
+//@     decreases i + 1
+//@   loop 1
+//@     invariant lastCut == len(txt) && 0 <= firstCut && firstCut <= len(first.Text)
+//@     invariant forall(0, i, func(k int) bool { return specCutSpace(txt[k]) })
